@@ -20,11 +20,11 @@ RULE = ('scenarios: kind (6) x trash state (first use, existing, name collision)
         '(thorough); crash before each mutating syscall + after the last; non-trivial = the crash state differs from both the initial and the final state; distinct = (route, '
         'kind, state, operation at which the process died)')
 ROUTES = ['home', 'top', 'alt', 'fallback']
-STATES = ['cold', 'warm', 'collision']
+STATES = ['cold', 'warm', 'collision', 'collision-dangling']
 
 
 def dimensions(tier):
-    return {'kinds': 6, 'routes': 4, 'trash_states': 3, 'variants': 4 if tier == 'thorough' else 2}
+    return {'kinds': 6, 'routes': 4, 'trash_states': 4, 'variants': 4 if tier == 'thorough' else 2}
 
 
 def scenarios(tier):
@@ -62,6 +62,11 @@ def world_(s):
     if route == 'fallback':
         W.file('/mnt/v1/.Trash', 'blocked').file('/mnt/v1/.Trash-0', 'blocked')
     td = {'home': scen.HOME_TRASH, 'top': '/mnt/v1/.Trash/0', 'alt': '/mnt/v1/.Trash-0', 'fallback': scen.HOME_TRASH}[route]
+    if s['state'] == 'collision-dangling':
+        scen.add_trash_dir(W, td)
+        loc = (B + '/x') if td == scen.HOME_TRASH else 'w/x'
+        W.file(td + '/info/x.trashinfo', '[Trash Info]\nPath=%s\nDeletionDate=2019-01-01T00:00:00\n' % loc)
+        W.link(td + '/files/x', 'target-that-went-away')
     if s['state'] in ('warm', 'collision'):
         scen.add_trash_dir(W, td)
         nm = 'x' if s['state'] == 'collision' else 'zzz'
